@@ -17,8 +17,9 @@ LIBS = [
      "m2.mo": "within L; model M2 extends M1; Real b; equation b = a + c0; end M2;",
      "_models": ["L.M1", "L.M2", "L.Units.U"]},
     # a class that declares both an unqualified and a plain qualified import, in its own file; a model of another file uses the latter
-    {"consts.mo": "package Lib package Consts constant Real g = 9.81; constant Real rho = 1000; end Consts; package Aux constant Real eps = 0.5; end Aux; end Lib;",
-     "models.mo": "within Lib; package Models import Lib.Aux.*; import Lib.Consts; end Models;",
+    {"consts.mo": "package Phys package Consts constant Real g = 9.81; constant Real rho = 1000; end Consts; package Aux constant Real eps = 0.5; end Aux; end Phys;",
+     "lib.mo": "package Lib constant Real one = 1; end Lib;",
+     "models.mo": "within Lib; package Models import Phys.Aux.*; import Phys.Consts; end Models;",
      "tank.mo": "within Lib.Models; model Tank Real p; Real q; equation p = Consts.rho * Consts.g; q = eps; end Tank;",
      "pipe.mo": "within Lib.Models; model Pipe Real f; equation f = 2 * Consts.g; end Pipe;",
      "_models": ["Lib.Models.Tank", "Lib.Models.Pipe"]},
